@@ -116,6 +116,13 @@ CLAIMS = {
             "all entropy draws, master secret, key block, IVs, passwords and plaintext are searched raw, hex, base64, word-swapped and by 16-byte windows; only an explicit print may show a secret.",
             "Only secrets the harness can name are searched; default build configuration.",
             "4/C19"),
+    "C20": ("model_checking",
+            "TLC model checking of Threads.tla (all interleavings of call entry / return, liveness under fairness; the hidden-state variant must violate) + TLC-enumerated call-level schedules replayed into the real library + "
+            "trace validation against ThreadsTrace.tla + ThreadSanitizer on free-running runs",
+            "A 12-kind mixed workload (hash, ciphers, SM2/SM9, DER/X.509/CMS, record protection, complete TLS 1.2/1.3 handshakes) runs per thread with a per-thread entropy stream: sequentially (definition of the results), free-running "
+            "with 2..16 threads under ASan and TSan, and under every call-level schedule of 3x2 and 2x4 enumerated by TLC (thorough: 2000 of 4x3); every operation must return its sequential digest, really succeed, in program order.",
+            "Trusted: TLC, ThreadSanitizer/AddressSanitizer, the sequential run as the definition of results. Free-running runs sample the OS scheduler.",
+            "4/C20"),
 }
 
 PENDING_REASON = "check under construction in this round (see DESIGN.md section 4); not claimed until it runs clean on the unchanged tree"
